@@ -30,6 +30,7 @@ CONSTANTS
   MaxConns,      \* dials that succeed, at most
   DialFails, WriteFails, ReadFails, StoreFails,   \* fault budgets
   MaxCalls,      \* ReadSlices invocations, at most (bounds the model)
+  RecordHist,    \* FALSE in the liveness configurations (hist would make every state distinct)
   DEV_F4, DEV_F6
 
 IdMod  == 16384
@@ -296,6 +297,7 @@ RdMoves(s) ==
          IF s.pingSlot # "" THEN {Mv([G(s1, "rd", "off.ping") EXCEPT !.loc["rd"].who = s.pingSlot, !.pingSlot = ""], "off.unlock", "ok")}
          ELSE {Mv(G(BreakAll(s1), "rd", "off.end"), "off.unlock", "ok")}
     [] at = "off.ping" -> {Mv([G(BreakAll(s), "rd", "off.end") EXCEPT !.pong[L.who] = "break"], "off.ping", "ok")}
+    [] at = "f4.spin" -> {Mv(s, "lw.wait", "ok")}   \* lw.got, lw.wait, lw.woke for ever
     [] at = "term.ping" ->
          LET s1 == [s EXCEPT !.pong[L.who] = "break"] IN
          {Mv(IF s.termLeft = 0 THEN G(BreakAll(s1), "rd", "idle") ELSE G(s1, "rd", "t.join"), "term.ping", "ok")}
@@ -307,6 +309,9 @@ Settle(s) ==
   LET at == s.pc["rd"]  L == s.loc["rd"] IN
   CASE at = "wn.take" ->   \* conn, ok := <-c.writeSem (may block: then the move does not exist)
          IF s.writeSem = HELD THEN [ok |-> FALSE, s |-> s]
+         ELSE IF DEV_F4 /\ s.writeSem = PENDING
+           THEN \* pinned tree: lockWrite waits for a connect that only this very routine could make (F4)
+                [ok |-> TRUE, s |-> G(s, "rd", "f4.spin")]
          ELSE [ok |-> TRUE, s |-> [G(s, "rd", "wn.got") EXCEPT !.writeSem = IF s.writeSem = CLOSED THEN CLOSED ELSE HELD,
                                                                !.loc["rd"].val = s.writeSem]]
     [] at = "r.ret" ->     \* ReadSlices returns the message at the head of the buffer
@@ -561,12 +566,30 @@ Init == st = St0 /\ hist = <<>>
 ProcStep(p) ==
   \E mv \in MovesOf(st, p) : \E m2 \in Settled(mv) :
      /\ st' = m2.s
-     /\ hist' = Append(hist, [p |-> p, at |-> m2.at, o |-> m2.o])
+     /\ hist' = IF RecordHist THEN Append(hist, [p |-> p, at |-> m2.at, o |-> m2.o]) ELSE hist
 Wake == \E s2 \in TermWake(st) \cup ReqWake(st) : st' = s2 /\ UNCHANGED hist
-BrokerStep == \E b \in BrokerMoves(st) : st' = b.s /\ hist' = Append(hist, [env |-> "brecv", c |-> b.c, respond |-> TRUE])
+BrokerStep == \E b \in BrokerMoves(st) : st' = b.s /\ hist' = IF RecordHist THEN Append(hist, [env |-> "brecv", c |-> b.c, respond |-> TRUE]) ELSE hist
 
 Next == (\E p \in Procs : ProcStep(p)) \/ Wake \/ BrokerStep
 Spec == Init /\ [][Next]_vars
+
+(* Fairness: every goroutine that can move eventually does (strongly fair: Go hands a channel value to a     *)
+(* waiting receiver, so a waiter is not overtaken for ever); the broker answers; induced wake-ups happen.   *)
+Fairness == (\A p \in Procs : SF_vars(ProcStep(p))) /\ WF_vars(Wake) /\ WF_vars(BrokerStep)
+LiveSpec == Spec /\ Fairness
+
+Closers == {p \in Writers : \E i \in DOMAIN Script[p] : Script[p][i].m = "Close"}
+Budgeted == st.calls < MaxCalls      \* the application still invokes ReadSlices
+\* C10: the read routine always gets back to a point where it waits for input, for its next invocation, or has ended
+C10_ReaderProgress == []<>(st.pc["rd"] \in {"call", "r.read", "idle", "t.join"})
+\* C01: every accepted publish completes (its exchange closes) unless the client gets closed
+ExClosed(t) == Has(st.exch, t) /\ st.exch[t].closed
+C01_Drained == \A t \in 1..9 : [](Has(st.exch, t) => <>(ExClosed(t) \/ st.ctxDone \/ ~Budgeted))
+\* C12: Close returns, and so does the ReadSlices that follows
+C12_Returns == \A p \in Closers : <>[](st.pc[p] = "idle")
+C12_ReaderEnds == (Closers # {}) => <>[](st.pc["rd"] \in {"idle", "call"} \/ ~Budgeted)
+\* C11: every request returns
+C11_Returns == \A p \in Writers : <>[](st.pc[p] = "idle" \/ ~Budgeted)
 
 (* ----------------------------------------------------------------------- *)
 (* Properties of the design (state predicates over st).  The same clauses  *)
